@@ -94,6 +94,7 @@ def rule_one_consumer(m, rep, rid='R2', parts=('receiver', 'callers')):
     cad = m.cad
     offenders = []
     n = 0
+    run_region = private_region(cad, m.run, m.worker)
     for b in (cad.all_bodies if 'receiver' in parts else []):
         if not b.file.endswith('queuing.rs'):
             continue
@@ -103,13 +104,13 @@ def rule_one_consumer(m, rep, rid='R2', parts=('receiver', 'callers')):
             if 'crossbeam_channel::channel::Receiver' in k or 'crossbeam_channel::channel::Iter' in k or \
                     'crossbeam_channel::channel::TryIter' in k or 'crossbeam_channel::channel::IntoIter' in k:
                 rep.sites()
-                if b.path != m.run.path:
+                if b.path not in run_region:
                     offenders.append((b, bi, k))
                 elif k not in DEQ_OPS and k not in RECV_BENIGN:
                     rep.unknown(rid, 'run/receiver-op', b.where(bi), 'receiver operation %s is not in the analysed set '
                                 '(recv, try_recv, iter().next(), is_empty, len)' % k)
         # places mentioning the receiver field outside run / constructor
-        if b.path != m.run.path:
+        if b.path not in run_region:
             for bi, blk in enumerate(b.blocks):
                 for si, s in enumerate(blk['stmts']):
                     if s['k'] != 'assign':
@@ -193,6 +194,20 @@ class LoopModel:
         self.ok = True
 
 
+PROJ_CALLS = ('core::result::Result::ok', 'core::option::Option::flatten', 'core::option::Option::as_ref', 'core::result::Result::as_ref')
+
+
+def proj_root(x):
+    """strip payload/field projections and variant-preserving views (`.ok()`, `.flatten()`) down to the producing term"""
+    while True:
+        if x[0] in ('field', 'payload', 'load'):
+            x = x[1]
+        elif x[0] == 'call' and isinstance(x[1], str) and x[1] in PROJ_CALLS and len(x[2]) == 1:
+            x = x[2][0]
+        else:
+            return x
+
+
 def rule_loop(m, rep, rid='R3', drained=False):
     lm = LoopModel(m, rep, rid)
     if not lm.ok:
@@ -204,9 +219,7 @@ def rule_loop(m, rep, rid='R3', drained=False):
     v = arg[1][0] if arg[0] == 'tuple' and len(arg[1]) == 1 else None
     okv = False
     if v is not None:
-        x = v
-        while x[0] in ('field', 'payload'):
-            x = x[1]
+        x = proj_root(v)
         okv = (x == lm.dterm) and any(y[0] == 'payload' and y[2] == 'Some' for y in walk(v))
     rep.ob(rid, 'task-gets-the-dequeued-metric', okv, body.where(lm.t),
            'the task is called with the String just dequeued' if okv else 'the task is called with %s' % fmt(arg))
@@ -220,14 +233,8 @@ def rule_loop(m, rep, rid='R3', drained=False):
         x = norm(dt)
         if x[0] != 'discr':
             continue
-        y = x[1]
-        while y[0] in ('field', 'payload', 'load'):
-            y = y[1]
+        y = proj_root(x[1])
         if y == lm.dterm:
-            for s in body.succs(bi, False):
-                if lm.t in reach(body, [s], stop=lambda q: q == lm.d) and \
-                        not (lm.d == s):
-                    pass
             # the successor that dominates t
             for s in body.succs(bi, False):
                 if s in dom.get(lm.t, ()):
@@ -640,8 +647,8 @@ def rule_counters(m, rep):
     # queued()
     qb = cad.method(m.stats_adt, 'queued')
     if len(qb) == 1:
-        b = qb[0]
-        rep.analysed(b)
+        b = inl(cad, qb[0])
+        rep.analysed(qb[0])
         T = Terms(b)
         subs = [(bi, blk) for bi, blk in enumerate(b.blocks) if blk['term']['k'] == 'assert' and 'Overflow(Sub)' in blk['term']['msg']]
         sat = [bi for bi, t in b.calls() if callee_is(t, 'saturating_sub', 'checked_sub')]
@@ -715,12 +722,15 @@ def rule_counters(m, rep):
     # constructor zeroes
     nb = cad.method(m.stats_adt, 'new')
     if len(nb) == 1:
-        rts = ret_terms(Terms(nb[0]), [0])
+        rts = ret_terms(Terms(inl(cad, nb[0])), [0])
         ok = False
+
+        def zero(v):
+            return v is not None and ((term_callee_is(v, 'core::sync::atomic::Atomic::new') and v[2][0] == ('const', 'u64', '0', None))
+                                      or term_callee_is(v, '<core::sync::atomic::Atomic as core::default::Default>::default'))
         if len(rts) == 1 and list(rts)[0][0] == 'adt':
             fs = dict(list(rts)[0][3])
-            ok = all(fs.get(f) is not None and term_callee_is(fs[f], 'core::sync::atomic::Atomic::new') and
-                     fs[f][2][0] == ('const', 'u64', '0', None) for f in m.counters.values())
+            ok = all(zero(fs.get(f)) for f in m.counters.values())
         rep.ob('C15-R3', 'counters-start-at-zero', ok, nb[0].where(), 'all counters initialised to 0')
 
 
